@@ -30,7 +30,16 @@ DupKeyLines == {[k |-> "call", api |-> "ObjectVal", xs |-> <<[keys |-> ks, dup |
                  : v1 \in DupVals, v2 \in DupVals, ks \in {<<"eacute", "eacute:nfd">>, <<"omega:nfd", "omega">>}}
                \cup {[k |-> "call", api |-> "MapVal", xs |-> <<[keys |-> <<"eacute", "eacute:nfd">>, dup |-> TRUE]>>, a |-> <<v1, v2>>, vs |-> <<>>]
                      : v1 \in {NumV(4), Null(TNum)}, v2 \in {NumV(0), Unk(TNum, NoRf)}}
-Lines == IF Fam = "convert" THEN ConvLines ELSE CtorLines \cup MarkApiLines \cup DupKeyLines
+\* collection constructors given members of DIFFERENT types one of which merely contains a placeholder (tuple([dynamic]), object({a=dynamic}),
+\* an empty set / list of dynamic): refused today; whatever is returned instead must be well-formed (declared element type = payload)
+HetPlace == {SeqV(TTup(<<TDyn>>), <<Null(TDyn)>>), MapV(TObj([a |-> TDyn]), [a |-> Null(TDyn)]), SeqV(TSet(TDyn), <<>>), SeqV(TList(TDyn), <<>>),
+             MapV(TObj([a |-> TDyn, b |-> TStr]), [a |-> Null(TDyn), b |-> StrV(<<"a">>)])}
+HetOther == {StrV(<<"a">>), NumV(4), SeqV(TTup(<<TStr>>), <<StrV(<<"a">>)>>), SeqV(TSet(TStr), <<StrV(<<"a">>)>>), SeqV(TList(TNum), <<NumV(4)>>),
+             MapV(TObj([a |-> TStr]), [a |-> StrV(<<"a">>)]), MapV(TObj([a |-> TNum, b |-> TStr]), [a |-> NumV(0), b |-> StrV(<<"b">>)])}
+HetLines == {[k |-> "call", api |-> api, xs |-> <<[keys |-> <<"a", "b", "c">>]>>, a |-> s, vs |-> <<>>]
+              : api \in {"ListVal", "SetVal", "MapVal"}, s \in {<<p, o>> : p \in HetPlace, o \in HetOther} \cup {<<o, p>> : p \in HetPlace, o \in HetOther}
+                                                                  \cup {<<o, p, o>> : p \in TakeN(HetPlace, 2), o \in TakeN(HetOther, 3)} \cup {<<p, q>> : p \in HetPlace, q \in HetPlace}}
+Lines == IF Fam = "convert" THEN ConvLines ELSE CtorLines \cup MarkApiLines \cup DupKeyLines \cup HetLines
 ASSUME LET sq == SetToSeq(Lines) IN ndJsonSerialize(IOEnv.VOUT, sq) /\ PrintT(<<"GEN", Len(sq)>>)
 VARIABLE x
 Init == x = 0
